@@ -181,7 +181,7 @@ func walkFixture() (*sim.Env, *fixture) {
 		Assets: []assetCfg{{"AAA", "uaaa", t(1), 2}, {"BBB", "ubbb", t(1), 1}, {"CCC", "uccc", t(1), 1}, {"DDD", "uddd", t(1), 3}},
 		// reserves are topped up to the pool coin supply (10^4): one pool coin withdraws exactly one unit of each side
 		Pools:   []poolCfg{{Base: 0, Quote: 1, Rx: t(1000), Ry: t(1000), DonQ: t(9000), DonB: t(9000)}, {Base: 2, Quote: 3, Rx: t(1000), Ry: t(1000), DonQ: t(9000), DonB: t(9000)}},
-		Farmers: []string{"f1", "f2"},
+		Farmers: []string{"f1", "f2", "f3"},
 		MinPs:   t(1), Give: t(100),
 		Rewards: []string{"urwda", "urwdb", "urwdc"}, RewAmt: t(1000000),
 	}
